@@ -49,17 +49,39 @@ func guessRules(R string) RuleFunc {
 			}
 			posOf := map[string]int{}
 			i := 0
-			ast.Inspect(d.Decl.Body, func(nd ast.Node) bool {
-				if se, ok := nd.(*ast.SelectorExpr); ok {
-					if _, isF := d.Pkg.TypesInfo.ObjectOf(se.Sel).(*types.Func); isF {
-						i++
-						if _, seen := posOf[se.Sel.Name]; !seen {
-							posOf[se.Sel.Name] = i
+			// references in program order; a helper of the same type that is called is read at the call
+			var walk func(hd *core.DeclSite, depth int)
+			walk = func(hd *core.DeclSite, depth int) {
+				ast.Inspect(hd.Decl.Body, func(nd ast.Node) bool {
+					se, ok := nd.(*ast.SelectorExpr)
+					if !ok {
+						return true
+					}
+					fo, isF := hd.Pkg.TypesInfo.ObjectOf(se.Sel).(*types.Func)
+					if !isF {
+						return true
+					}
+					i++
+					if _, seen := posOf[se.Sel.Name]; !seen {
+						posOf[se.Sel.Name] = i
+					}
+					if depth < 2 && se.Sel.Name != first && fo.Pkg() != nil && fo.Pkg().Path() == hd.Pkg.PkgPath {
+						isLater := false
+						for _, l := range later {
+							if l == se.Sel.Name {
+								isLater = true
+							}
+						}
+						if !isLater {
+							if sub := c.P.FindDecl(core.Rel(fo.FullName())); sub != nil && sub.Decl.Body != nil && sub.Decl != hd.Decl {
+								walk(sub, depth+1)
+							}
 						}
 					}
-				}
-				return true
-			})
+					return true
+				})
+			}
+			walk(d, 0)
 			pf, ok := posOf[first]
 			if !ok {
 				c.Bad(R, full+":order", c.P.Pos(d.Decl.Pos()), "predicate order in "+full, "predicate "+first+" is no longer referenced")
@@ -174,7 +196,11 @@ func classifierEquiv(c *core.Ctx, a, b *core.DeclSite) (why string, decided bool
 			return nil, false
 		}
 		e.tuple = func(call *ast.CallExpr) ([]int64, bool) {
-			return []int64{1, perr}, true // (number, error) of the parser
+			// (number, error) of the parser; other two-valued helpers are evaluated in place
+			if t, ok := core.TypeOf(e.pk, call).(*types.Tuple); ok && t.Len() == 2 && core.IsErrorType(t.At(1).Type()) {
+				return []int64{1, perr}, true
+			}
+			return nil, false
 		}
 		e.hook = func(x ast.Expr) (int64, bool) {
 			switch y := x.(type) {
